@@ -32,6 +32,7 @@ func (s *c04Shrinker) eval(c *c04Case) (c04Result, bool) {
 	res, alive := s.proc.run(c, s.pool.timeout)
 	if !alive {
 		s.proc = nil
+		c04AttachIR(c, &res)
 	}
 	same := res.Outcome == s.target.Outcome && res.Frame == s.target.Frame && res.Msg == s.target.Msg
 	return res, same
